@@ -506,5 +506,6 @@ pub fn main(args: &[String]) {
     let _ = (Meta::Disable, NAMES, validator as fn(&str) -> _);
     // the repository's own bridges: what the bindings refer to is what the built libraries export
     crate::repo_tests::symbols(&mut rep);
+    crate::tool::alias_probe(&mut rep, "C06", crate::tool::ALIAS_SRC);
     rep.print();
 }
